@@ -60,7 +60,9 @@ let api_table : (string * schema) list = [
   "HeaderBody", headerBodyPraos; "Header", headerPraos; "Block", blockPraos depth; "ValueEmptyAssets", value;
   (* stream (ii) only: Rust identifies keys that are equal as data but written differently (definite / indefinite
      list, original bytes), so model-generated maps with such keys are outside the writer image *)
-  "PlutusMap", plutusMap depth ] @ table
+  "PlutusMap", plutusMap depth;
+  (* stream (iii): a FixedTransaction is a transaction on the wire *)
+  "FixedTransaction", transaction depth ] @ table
 
 (* ---------- PRNG (SplitMix64) ---------- *)
 let st = ref 0L
@@ -205,7 +207,7 @@ let gen_mode seed tier out =
   st := Int64.of_string seed;
   ignore (next ());
   let oc = open_out out in
-  let per = if tier = "thorough" then 1200 else 64 in
+  let per = if tier = "thorough" then 800 else 64 in
   List.iter (fun (name, s) ->
       (* wfs s = true is a theorem (ledger_schemas_wf, for every depth); it is not re-evaluated here: the
          unrolled PlutusData schema at depth 3 has 130^3 nodes as a tree *)
